@@ -33,13 +33,20 @@ def c11(ctx):
     r = core.run_tlc(ctx, "MC_Recursion", "MC_Recursion_mutVirtual.cfg", workers=2, timeout=300, coverage=False, expect_violation=True, quiet=True)
     if not r["violated"]:
         raise core.ToolError("vacuity: the virtual-key spec mutant is accepted by TLC")
+    r = core.run_tlc(ctx, "MC_Recursion", "MC_Recursion_mutSkipLast.cfg", workers=2, timeout=300, coverage=False, expect_violation=True, quiet=True)
+    if not r["violated"]:
+        raise core.ToolError("vacuity: the spec mutant whose verifier loop skips the last slot is accepted by TLC")
     if ctx.replay:
         rc = json.loads(open(ctx.replay).read())["case"]
         if "case" in rc:
             cases = [rc["case"]]
     elif ctx.quick:
         keep = {"canonical", "sameshape_rangeonly"}
-        cases = [c for c in cases if c["built_for"] in keep or c["ctor"] == "err" and c["proof_by"] == "canonical" and c["valid"] == 1]
+        cases = [c for c in cases if (c["n"] == 1 and (c["built_for"] in keep or c["ctor"] == "err" and c["proof_by"] == "canonical" and c["valid"] == 1))
+                 or (c["n"] > 1 and c["built_for"] == "canonical" and c["valid"] == 1 and c["ctor"] == "ok")]
+    else:
+        # several slots: outers for the canonical leaf and the range-only circuit (each outer circuit is built once per size)
+        cases = [c for c in cases if c["n"] == 1 or c["built_for"] in ("canonical", "sameshape_rangeonly")]
     inp = ctx.workdir / "rec_in.ndjson"
     inp.write_text("\n".join(json.dumps(c) for c in cases) + "\n")
     outp = ctx.workdir / "rec_out.ndjson"
@@ -54,8 +61,9 @@ def c11(ctx):
             raise core.ToolError(r["tool_error"])
         if "case" in r:
             c = r["case"]
-            distinct.add((c["built_for"], c["proof_by"], c["valid"]))
-            d = f"outer built for '{c['built_for']}', child proof by '{c['proof_by']}' ({'valid' if c['valid'] else 'tampered'})"
+            distinct.add((c["built_for"], c["proof_by"], c["valid"], c["n"], c["slot"]))
+            d = (f"outer with {c['n']} slot(s) built for '{c['built_for']}', child proof by '{c['proof_by']}' ({'valid' if c['valid'] else 'tampered'}) in slot "
+                 f"{c['slot']}, valid proofs of '{c['built_for']}' in the other slots")
             if r["ctor"] != c["ctor"]:
                 bad = f"constructor over a child circuit with {'a wrong' if c['ctor'] == 'err' else 'the right'} public-input count: model {c['ctor']}, code {r['ctor']}"
             elif c["ctor"] == "ok":
@@ -78,10 +86,10 @@ def c11(ctx):
     if nacc == 0 and not ctx.replay:
         raise core.ToolError("vacuity: no outer circuit accepted its own child's proof")
     ctx.cov["distinct_nontrivial"] = len(distinct)
-    ctx.cov["rule"] = ("cells of Recursion.tla (outer built for circuit X, proof by circuit Y, valid/tampered) over eight child circuits: the canonical leaf, an "
+    ctx.cov["rule"] = ("cells of Recursion.tla (outer with n = 1..3 slots built for circuit X, proof by circuit Y, valid/tampered, in slot s, valid proofs of X in the other slots) over eight child circuits: the canonical leaf, an "
                        "unconstrained and a range-check-only circuit of the same shape, the repo's leaf fragments without connect_shared_targets, a padded-"
-                       "domain variant, another FRI config, 1- and 20-public-input circuits; quick: outers for the canonical leaf and the range-only circuit; "
-                       "thorough: all 128 cells; plus the public-batch outer with canonical / foreign inner proofs and the constructor shape checks")
+                       "domain variant, another FRI config, 1- and 20-public-input circuits; quick: one-slot outers for the canonical leaf and the range-only circuit, 2- and 3-slot outers for the canonical leaf; "
+                       "thorough: all one-slot cells, 2- and 3-slot outers for both; plus the public-batch outer with canonical / foreign inner proofs and the constructor shape checks")
     for r in rows[:: max(1, len(rows) // 3)][:3]:
         ctx.add_sample({"kind": "Recursion.tla cell on the real outer circuit", "cell": r.get("case", r.get("public")), "observed": r.get("outer", r.get("ctor"))})
     return core.finish(ctx)
